@@ -120,6 +120,8 @@ def check(case) -> Outcome:
         proot = guarded(5.0, md.scan, pay["text"])
     except CaseTimeout:
         return o.exclude("slow-scan")
+    except Exception as e:
+        return o.exclude("scan-raised:" + type(e).__name__ + " (C01's business)")
     if proot.flatten() != pay["text"] or any(n.value.lower() != n.original.lower() for n in proot):
         return o.exclude("payload is not decoding-free")
     layers, blob, skipped = build(case)
@@ -145,6 +147,8 @@ def check(case) -> Outcome:
         root = guarded(20.0, md.scan, text, k)
     except CaseTimeout:
         return o.exclude("slow-scan")
+    except Exception as e:
+        return o.exclude("scan-raised:" + type(e).__name__ + " (C01's business)")
     names = [l["name"] for l in layers]
     node = root
     span = (len(pre), len(pre) + len(blob))
